@@ -205,6 +205,9 @@ theorem allN_find {P : List (α × Node α) → Prop} {v : Option Nat} {ks : Lis
 /-- every child map is sorted -/
 abbrev Sorted (n : Node α) : Prop := AllN KeysLt n
 
+theorem sorted_mk {v : Option Nat} {ks : List (α × Node α)} :
+    Sorted (mk v ks) ↔ KeysLt ks ∧ ∀ p ∈ ks, Sorted p.2 := allN_mk
+
 theorem keysLt_nil : KeysLt ([] : List (α × Node α)) := by simp [KeysLt]
 
 /-! ### `addN` -/
@@ -820,5 +823,160 @@ theorem wf_removeN (k : List α) (vi : Nat) (n : Node α) (h : WF n) : WF (remov
   cases k with
   | nil => simp only []; rw [Node.eta n] at h; exact wf_same_kids h
   | cons c cs => exact wf_nestedRemove c cs n h
+
+/-! ### the stored keys of a node, and `size()` -/
+
+mutual
+/-- all keys below `n` that hold a value (depth first) -/
+def keysN : Node α → List (List α)
+  | mk v ks => (if v.isSome then [[]] else []) ++ keysKids ks
+def keysKids : List (α × Node α) → List (List α)
+  | [] => []
+  | (c, n) :: r => (keysN n).map (c :: ·) ++ keysKids r
+end
+
+mutual
+theorem sizeN_eq : ∀ n : Node α, sizeN n = (keysN n).length
+  | mk v ks => by
+    rw [sizeN, keysN, List.length_append, sizeKids_eq ks]
+    cases v <;> simp
+theorem sizeKids_eq : ∀ ks : List (α × Node α), sizeKids ks = (keysKids ks).length
+  | [] => by simp [sizeKids, keysKids]
+  | (c, n) :: r => by
+    rw [sizeKids, keysKids, List.length_append, List.length_map, sizeN_eq n, sizeKids_eq r]
+end
+
+theorem mem_keysKids {k : List α} {ks : List (α × Node α)} :
+    k ∈ keysKids ks ↔ ∃ p ∈ ks, ∃ k', k = p.1 :: k' ∧ k' ∈ keysN p.2 := by
+  induction ks with
+  | nil => simp [keysKids]
+  | cons e r ih =>
+    obtain ⟨c, n⟩ := e
+    simp only [keysKids, List.mem_append, List.mem_map, ih, List.mem_cons, exists_eq_or_imp]
+    constructor
+    · rintro (⟨k', hk', rfl⟩ | h)
+      · exact Or.inl ⟨k', rfl, hk'⟩
+      · exact Or.inr h
+    · rintro (⟨k', rfl, hk'⟩ | h)
+      · exact Or.inl ⟨k', hk', rfl⟩
+      · exact Or.inr h
+
+theorem find_eq_some_iff [TotalLT α] {c : α} {n : Node α} {ks : List (α × Node α)} (hs : KeysLt ks) :
+    find c ks = some n ↔ (c, n) ∈ ks := by
+  constructor
+  · exact find_mem
+  · intro h
+    induction ks with
+    | nil => simp at h
+    | cons e r ih =>
+      obtain ⟨k, m⟩ := e
+      simp only [List.mem_cons, Prod.mk.injEq] at h
+      simp only [find]
+      rcases h with ⟨rfl, rfl⟩ | h
+      · simp
+      · have hlt := hs.head_lt _ h
+        simp only at hlt
+        have : ¬ c = k := fun e => TotalLT.irrefl k (e ▸ hlt)
+        simp only [this, if_false]
+        exact ih hs.tail h
+
+theorem mem_keysN [TotalLT α] (n : Node α) (hs : Sorted n) (k : List α) :
+    k ∈ keysN n ↔ (lookupN k n).isSome := by
+  induction n using Node.induct_node generalizing k with
+  | h v ks ih =>
+    rw [sorted_mk] at hs
+    rw [keysN, List.mem_append, mem_keysKids]
+    cases k with
+    | nil =>
+      simp only [lookupN_nil, val_mk]
+      constructor
+      · rintro (h | ⟨p, _, k', h, _⟩)
+        · cases v <;> simp_all
+        · simp at h
+      · intro h; left; simp [h]
+    | cons c cs =>
+      simp only [lookupN_cons, kids_mk]
+      constructor
+      · rintro (h | ⟨p, hp, k', h, hk'⟩)
+        · cases v <;> simp at h
+        · simp only [List.cons.injEq] at h
+          obtain ⟨rfl, rfl⟩ := h
+          have hf : find p.1 ks = some p.2 := (find_eq_some_iff hs.1).mpr hp
+          rw [hf]
+          simp only [Option.bind_some]
+          exact (ih p hp (hs.2 p hp) cs).mp hk'
+      · intro h
+        right
+        cases hf : find c ks with
+        | none => simp [hf] at h
+        | some ch =>
+          rw [hf] at h
+          simp only [Option.bind_some] at h
+          have hm := find_mem hf
+          exact ⟨(c, ch), hm, cs, rfl, (ih _ hm (hs.2 _ hm) cs).mpr h⟩
+
+theorem nodup_keysKids [TotalLT α] (ks : List (α × Node α)) (hlt : KeysLt ks)
+    (h : ∀ p ∈ ks, (keysN p.2).Nodup) : (keysKids ks).Nodup := by
+  induction ks with
+  | nil => simp [keysKids]
+  | cons e r ih =>
+    obtain ⟨c, n⟩ := e
+    rw [keysKids, List.nodup_append]
+    refine ⟨?_, ih hlt.tail (fun p hp => h p (by simp [hp])), ?_⟩
+    · have := h (c, n) (by simp)
+      simp only at this
+      rw [List.nodup_iff_pairwise_ne] at this ⊢
+      rw [List.pairwise_map]
+      exact this.imp (fun hab e => hab (List.cons.inj e).2)
+    · intro a ha b hb e
+      subst e
+      simp only [List.mem_map] at ha
+      obtain ⟨k', _, rfl⟩ := ha
+      rw [mem_keysKids] at hb
+      obtain ⟨p, hp, k'', h2, _⟩ := hb
+      simp only [List.cons.injEq] at h2
+      have := hlt.head_lt p hp
+      simp only at this
+      rw [← h2.1] at this
+      exact TotalLT.irrefl c this
+
+theorem nodup_keysN [TotalLT α] (n : Node α) (hs : Sorted n) : (keysN n).Nodup := by
+  induction n using Node.induct_node with
+  | h v ks ih =>
+    rw [sorted_mk] at hs
+    rw [keysN, List.nodup_append]
+    refine ⟨by cases v <;> simp, nodup_keysKids ks hs.1 (fun p hp => ih p hp (hs.2 p hp)), ?_⟩
+    intro a ha b hb e
+    subst e
+    have : a = [] := by cases v <;> simp_all
+    subst this
+    rw [mem_keysKids] at hb
+    obtain ⟨p, _, k', h, _⟩ := hb
+    simp at h
+
+/-- `size()` of a node: the number of keys on which `lookupN` is defined, counted through any
+    duplicate-free enumeration `l` of those keys -/
+theorem sizeN_eq_length [TotalLT α] (n : Node α) (hs : Sorted n) (l : List (List α)) (hl : l.Nodup)
+    (h : ∀ k, k ∈ l ↔ (lookupN k n).isSome) : sizeN n = l.length := by
+  rw [sizeN_eq]
+  apply Nat.le_antisymm
+  · exact List.Nodup.length_le_of_subset (nodup_keysN n hs) (fun k hk => (h k).mpr ((mem_keysN n hs k).mp hk))
+  · exact List.Nodup.length_le_of_subset hl (fun k hk => (mem_keysN n hs k).mpr ((h k).mp hk))
+
+/-- a node that is not dead stores at least one key (given no dead node below it) -/
+theorem exists_key_of_not_dead (n : Node α) (h : WF n) (hn : ¬ Dead n) : ∃ k, (lookupN k n).isSome := by
+  induction n using Node.induct_node with
+  | h v ks ih =>
+    rw [wf_mk] at h
+    cases v with
+    | some i => exact ⟨[], by simp⟩
+    | none =>
+      cases ks with
+      | nil => exact absurd ⟨rfl, rfl⟩ hn
+      | cons e r =>
+        obtain ⟨c, ch⟩ := e
+        have hm : (c, ch) ∈ (c, ch) :: r := by simp
+        obtain ⟨k, hk⟩ := ih _ hm (h.2 _ hm) (h.1.2 _ hm)
+        exact ⟨c :: k, by simp [lookupN_cons, find, hk]⟩
 
 end Occa.Trie
